@@ -14,9 +14,9 @@ import (
 type DGen struct {
 	R      *rand.Rand
 	S      *ast.Schema
-	frags  []GT          // fragment definitions created so far
+	frags  []GT                // fragment definitions created so far
 	fragOn map[string][]string // type condition -> fragment names (usable for spreading)
-	vars   []GT          // variable definitions of the operation being built
+	vars   []GT                // variable definitions of the operation being built
 	nvar   int
 	nfrag  int
 	nalias int
